@@ -22,6 +22,127 @@ SPEC = os.path.join(os.path.dirname(os.path.dirname(os.path.abspath(__file__))),
 ALWAYS_SAFE = set(string.ascii_letters + string.digits + '_.-~')   # urllib.parse.quote
 
 
+XML_CHAR = [(0x9, 0x9), (0xA, 0xA), (0xD, 0xD), (0x20, 0xD7FF), (0xE000, 0xFFFD),
+            (0x10000, 0x10FFFF)]        # XML 1.0 §2.2 production [2] Char
+
+
+def _merge(iv: list[tuple[int, int]]) -> list[tuple[int, int]]:
+    out: list[tuple[int, int]] = []
+    for lo, hi in sorted(iv):
+        if out and lo <= out[-1][1] + 1:
+            out[-1] = (out[-1][0], max(out[-1][1], hi))
+        else:
+            out.append((lo, hi))
+    return out
+
+
+def r09_3(ctx, counts) -> RuleResult:
+    import ast as _ast
+    model = ctx.model
+    res = RuleResult(
+        'R09.3', 'XML-CHAR-TABLE',
+        'helpers.is_xml_codepoint (used by codepoints-to-string, unparsed-text, parse-json and '
+        'json-to-xml) accepts exactly the code points of the XML 1.0 Char production: #x9 | #xA | '
+        '#xD | [#x20-#xD7FF] | [#xE000-#xFFFD] | [#x10000-#x10FFFF]. The boolean expression it '
+        'returns is interpreted as a union of intervals over its parameter (membership in a '
+        'constant tuple, chained comparisons, `or`, any(cp in r for r in RANGES) with RANGES a '
+        'module constant of range() objects) and compared with the production.')
+    mod = model.module('elementpath.helpers')
+    f = mod.toplevel_function('is_xml_codepoint')
+    if f is None:
+        raise AnalysisError('helpers.is_xml_codepoint vanished')
+    cp = f.params()[0]
+    rets = [x for x in walk_local(f.node) if isinstance(x, _ast.Return) and x.value is not None]
+    if len(rets) != 1:
+        raise AnalysisError('is_xml_codepoint: single return expression expected')
+
+    def fold_int(e) -> int:
+        v = model.try_fold(mod, e)
+        if not isinstance(v, int) or isinstance(v, bool):
+            raise AnalysisError(f'is_xml_codepoint: `{stmt_text(e)}` is not an integer constant')
+        return v
+
+    def ranges_of(e) -> list[tuple[int, int]]:
+        """intervals of a constant collection expression (tuple of ints / of range() calls)"""
+        if isinstance(e, _ast.Name):
+            tgt = mod.assigns.get(e.id)
+            if tgt is None:
+                raise AnalysisError(f'is_xml_codepoint: constant {e.id} not found')
+            return ranges_of(tgt)
+        if isinstance(e, (_ast.Tuple, _ast.List, _ast.Set)):
+            out: list[tuple[int, int]] = []
+            for x in e.elts:
+                if isinstance(x, _ast.Call) and dotted(x.func) == 'range':
+                    out.extend(ranges_of(x))
+                elif isinstance(x, (_ast.Tuple, _ast.List)) and len(x.elts) == 2:
+                    out.append((fold_int(x.elts[0]), fold_int(x.elts[1])))
+                else:
+                    v = fold_int(x)
+                    out.append((v, v))
+            return out
+        if isinstance(e, _ast.Call) and dotted(e.func) == 'range' and len(e.args) in (1, 2):
+            lo = 0 if len(e.args) == 1 else fold_int(e.args[0])
+            hi = fold_int(e.args[-1]) - 1
+            return [(lo, hi)] if hi >= lo else []
+        raise AnalysisError(f'is_xml_codepoint: collection `{stmt_text(e)[:50]}` not modelled')
+
+    def interp(e) -> list[tuple[int, int]]:
+        if isinstance(e, _ast.BoolOp) and isinstance(e.op, _ast.Or):
+            out: list[tuple[int, int]] = []
+            for v in e.values:
+                out.extend(interp(v))
+            return out
+        if isinstance(e, _ast.Compare):
+            parts = [e.left] + list(e.comparators)
+            if len(e.ops) == 1 and isinstance(e.ops[0], _ast.In) and dotted(e.left) == cp:
+                return ranges_of(e.comparators[0])
+            if len(e.ops) == 1 and isinstance(e.ops[0], _ast.Eq) and dotted(e.left) == cp:
+                v = fold_int(e.comparators[0])
+                return [(v, v)]
+            if len(e.ops) == 2 and dotted(parts[1]) == cp:
+                lo, hi = fold_int(parts[0]), fold_int(parts[2])
+                if isinstance(e.ops[0], _ast.Lt):
+                    lo += 1
+                elif not isinstance(e.ops[0], _ast.LtE):
+                    raise AnalysisError('is_xml_codepoint: comparison form not modelled')
+                if isinstance(e.ops[1], _ast.Lt):
+                    hi -= 1
+                elif not isinstance(e.ops[1], _ast.LtE):
+                    raise AnalysisError('is_xml_codepoint: comparison form not modelled')
+                return [(lo, hi)]
+        if isinstance(e, _ast.Call) and dotted(e.func) == 'any' and e.args and \
+                isinstance(e.args[0], _ast.GeneratorExp) and len(e.args[0].generators) == 1:
+            g = e.args[0].generators[0]
+            elt = e.args[0].elt
+            if isinstance(elt, _ast.Compare) and len(elt.ops) == 1 and \
+                    isinstance(elt.ops[0], _ast.In) and dotted(elt.left) == cp and \
+                    isinstance(g.target, _ast.Name) and dotted(elt.comparators[0]) == g.target.id:
+                return ranges_of(g.iter)
+            if isinstance(elt, _ast.Compare) and len(elt.ops) == 2 and \
+                    isinstance(g.target, _ast.Tuple) and len(g.target.elts) == 2 and \
+                    dotted(elt.comparators[0]) == cp and all(isinstance(o, _ast.LtE) for o in elt.ops):
+                return ranges_of(g.iter)
+        raise AnalysisError(f'is_xml_codepoint: expression `{stmt_text(e)[:60]}` not modelled')
+
+    got = _merge(interp(rets[0].value))
+    want = _merge(XML_CHAR)
+    res.instances.append('is_xml_codepoint accepts ' + ', '.join(
+        f'{lo:#x}-{hi:#x}' if lo != hi else f'{lo:#x}' for lo, hi in got))
+    if got == want:
+        res.ok()
+    else:
+        gs = {c for lo, hi in got for c in (lo, hi, lo - 1, hi + 1)} | \
+            {c for lo, hi in want for c in (lo, hi, lo - 1, hi + 1)}
+        def member(iv, c): return any(lo <= c <= hi for lo, hi in iv)
+        diff = sorted(c for c in gs if c >= 0 and member(got, c) != member(want, c))
+        res.fail(finding('R09.3', f, rets[0], 'Char production',
+                         f'is_xml_codepoint accepts {[(hex(a), hex(b)) for a, b in got]} but the '
+                         f'XML Char production is {[(hex(a), hex(b)) for a, b in want]}; they '
+                         f'differ e.g. at {[f"U+{c:04X}" for c in diff[:4]]}'))
+    counts['xml_char_intervals'] = len(got)
+    return res
+
+
 def run(ctx) -> dict:
     model = ctx.model
     counts: dict[str, int] = {}
@@ -102,7 +223,7 @@ def run(ctx) -> dict:
             r2.ok()
     counts['uri_functions'] = n
     return {
-        'results': [r1, r2], 'counts': counts,
+        'results': [r1, r2, r09_3(ctx, counts)], 'counts': counts,
         'explanation':
             'Decided statically: fn:substring rounds its start/length half up (through the '
             'repository\'s round_number helper, never the builtin round()); the three URI '
